@@ -37,9 +37,9 @@ def generated(tag, base, m, o_unit, o_val):
     if o_unit is None:
         defs = "struct %s : decltype(%s{} * (%s)) {};" % (name, base, mexpr(m))
         return PUnit(name, name, defs, m, 0)
-    defs = ("struct %s : decltype(%s{} * (%s)) { static constexpr auto origin() { return au::make_quantity<decltype(%s{} * (%s))>(%d); } };"
+    defs = ("struct %s : decltype(%s{} * (%s)) { static constexpr auto origin() { return au::make_quantity<decltype(%s{} * (%s))>(%dLL); } };"
             % (name, base, mexpr(m), base, mexpr(o_unit), o_val))
-    return PUnit(name, name, defs, m, Fraction(o_unit) * o_val, Fraction(o_unit), o_val)
+    return PUnit(name, name, defs, m, Fraction(o_unit) * o_val, Fraction(o_unit), o_val, "long long")
 
 
 def read_library(ctx):
